@@ -4,4 +4,4 @@ package main
 
 import "testing"
 
-func TestVerifC27(t *testing.T) { c27Leg(t, 400, 10000, 400, 10000) }
+func TestVerifC27(t *testing.T) { c27Leg(t, 250, 10000, 250, 10000) }
